@@ -104,6 +104,25 @@ MergeLinked(G, Pp) ==
   ELSE LET pr == CHOOSE pr \in prs : TRUE IN MergeLinked(G, (Pp \ {pr[1], pr[2]}) \cup {pr[1] \cup pr[2]})
 AncestralComponents(G, Ws, Xs) == MergeLinked(G, {AncSetGiven(G, Xs, w) : w \in Ws})
 
+\* ---------------------------------------------------------------- merge-chain events (C18)
+\* Events that force chains of Lemma-24/25 merges in the counterfactual graph: one variable y in worlds that differ
+\* only in a subscript z irrelevant to y (z is not an ancestor of y once the edges into the common subscript x are cut),
+\* so that all these copies of y are one random variable, with atoms on two of the copies (all four value
+\* combinations: agreeing and clashing) and a third atom, on another variable, in the remaining world.
+IvSeqOf(S) == CHOOSE q \in IvSeqs({p[1] : p \in S}) : ToSet(q) = S
+ChainOn(G, y, x, z) ==
+  UNION {
+    LET W == {{<<x, sx>>}, {<<x, sx>>, <<z, 1>>}, {<<x, sx>>, <<z, 2>>}} IN
+    UNION {LET last == CHOOSE w \in W : w \notin {pr[1], pr[2]} IN
+           {{[n |-> y, s |-> u, iv |-> IvSeqOf(pr[1])], [n |-> y, s |-> v, iv |-> IvSeqOf(pr[2])],
+             [n |-> o, s |-> t, iv |-> IvSeqOf(last)]} :
+               u \in Marks, v \in Marks, t \in Marks, o \in G.n \ ({y} \cup {p[1] : p \in last})} :
+           pr \in {q \in W \X W : q[1] # q[2]}}
+    : sx \in Marks}
+MergeChainEvents(G) ==
+  UNION {UNION {UNION {ChainOn(G, y, x, z) : z \in {k \in G.n \ {x, y} : k \notin An(RemoveIn(G, {x}), {y})}}
+                : x \in G.n \ {y}} : y \in G.n}
+
 \* ---------------------------------------------------------------- vocabulary (C06): single-world terms only
 RECURSIVE SingleWorldOnly(_)
 SingleWorldOnly(e) ==
